@@ -136,7 +136,12 @@ impl Check for C19 {
         }
     }
     fn generate(&self, rng: &mut Prng, tier: Tier, idx: u64) -> Value {
-        let scn = if idx % 4 == 3 {
+        let scn = if idx % 4 == 3 && (idx / 4) % 3 == 2 {
+            // variable-length decoding: honest executions only (nothing is published to judge a Byzantine one by)
+            let op = ops_parse::B64V_OPS[(idx as usize / 12) % 2];
+            let case = ops_parse::b64v_gen_case(rng, op);
+            Scn::Op(opcheck::Scn { case, fault_seed: rng.u64(), n_plans: 1, only: Some(vec![]), only_late: Some(vec![]) })
+        } else if idx % 4 == 3 {
             let op = ops_parse::B64_OPS[(idx as usize / 4) % 2];
             let case = ops_parse::b64_gen_case(rng, op);
             Scn::Op(opcheck::Scn { case, fault_seed: rng.u64(), n_plans: if tier == Tier::Quick { 3 } else { 8 }, only: None, only_late: None })
